@@ -70,7 +70,7 @@ def run(ck, build):
             "load/store/mem-intrinsic address and length, division operand, variable shift amount, indirect-call target and foreign-call argument contains no SECRET/ENTROPY label; "
             "run on the source-shaped N0 IR and on the project's -O3 IR")
     ck.not_decided += ["lowering of -O3 IR to machine code by the x86 backend (assumed not to introduce secret-dependent branches)", "gcc builds",
-                       "data-dependent timing of individual instructions", "assembly backends (decided under C05/C07-ASM when built)"]
+                       "data-dependent timing of individual instructions"]
     ck.assume("distinct pointer parameters do not overlap except the documented c == m")
     ck.assume("a variable index stays inside the array field it was derived from (bounds are C06's business)")
     ck.assume("the entropy callback and the OS entropy primitives are trusted parties that may see the seed buffer")
@@ -97,6 +97,37 @@ def run(ck, build):
                 analyse(ck, mod, v + "/N0")
             except Broken as e:
                 ck.note("variant %s not analysed for C07: %s" % (v, e))
+    # assembly backends: branches on the round counter only, addresses base + constant
+    from . import C05
+    from .. import asmsrc
+
+    class _OnlyAsm:
+        def __init__(self, ck):
+            self._ck = ck
+
+        def ob(self, cond, rule, *a, **k):
+            return self._ck.ob(cond, rule, *a, **k) if rule == "R-C07-ASM" else cond
+
+        def ok(self, rule, *a, **k):
+            if rule == "R-C07-ASM":
+                self._ck.ok(rule, *a, **k)
+
+        def bad(self, rule, *a, **k):
+            if rule == "R-C07-ASM":
+                self._ck.bad(rule, *a, **k)
+
+        def __getattr__(self, n):
+            return getattr(self._ck, n)
+    ck.rule("R-C07-ASM", "in each of the 27 assembly programs every conditional branch tests only the round counter (symbolic machine of C05) and every memory address is base/stack + constant")
+    progs = asmsrc.programs(build)
+    nasm = 0
+    for tid, ks, rel in progs:
+        n, _, _ = C05.analyse_program(_OnlyAsm(ck), build, tid, ks, rel, rules=("C07", "EFFECT"))
+        nasm += 1
+    ck.floor("R-C07-ASM", "assembly programs analysed", nasm, 27)
+    sub = type(ck)("C07-asm-fixture")
+    C05._fixture_program(sub, build, os.path.join(os.path.dirname(os.path.dirname(os.path.dirname(__file__))), "fixtures", "c05_bad_branch_riscv32i.S"))
+    ck.control("c05_bad_branch_riscv32i.S:R-C07-ASM", any(v["rule"] == "R-C07-ASM" for v in sub.violations), "fixture violations: %s" % sorted({v["rule"] for v in sub.violations}))
     # positive controls
     fxp = os.path.join(os.path.dirname(os.path.dirname(os.path.dirname(__file__))), "fixtures", "c07_bad.c")
     for form in ("N0", "R3"):
